@@ -276,6 +276,17 @@ def mmap_flags(fb, chk):
     """reader maps PROT_READ only; both map MAP_SHARED"""
     PROT_READ, PROT_WRITE, MAP_SHARED, MAP_PRIVATE = 1, 2, 1, 2
     found = 0
+    # which side a mapping belongs to: the constructor that reaches it (the writer's probe of the reader's open routine
+    # does not make the reader's mapping a writer mapping)
+    def is_rnew(x):
+        return x.name == 'new' and (x.impl_self or '').endswith('ShmReader')
+    reader_sites, writer_sites = set(), set()
+    for b0 in fb.bodies(common.SHM):
+        if b0.name == 'new' and b0.defkind != 'Closure' and (b0.impl_self or '').endswith(('ShmReader', 'ShmWriter')):
+            side = reader_sites if b0.impl_self.endswith('ShmReader') else writer_sites
+            for ob_, bb_, t_, fn_ in common.reachable_calls(fb, b0, stop=None if side is reader_sites else is_rnew):
+                if fn_.get('name') == 'mmap':
+                    side.add((ob_.path, bb_))
     for b in fb.bodies(common.SHM):
         for bb, t, fn in common.user_calls(b):
             if not fn or fn.get('name') != 'mmap':
@@ -288,7 +299,9 @@ def mmap_flags(fb, chk):
                     if ef['kind'] == 'call' and ef['callee'].endswith('::mmap') and ef['site'][1] == bb:
                         a = ef['args']
                         prot, flags = bits_of(a[2]), bits_of(a[3])
-            is_reader = 'reader' in b.path
+            is_reader = (b.path, bb) in reader_sites and (b.path, bb) not in writer_sites
+            if (b.path, bb) not in reader_sites and (b.path, bb) not in writer_sites:
+                continue        # a mapping neither constructor reaches
             if is_reader:
                 chk.ob('C02.S4', 'mmap:reader-prot-read-only', prot == PROT_READ, b.where(bb), 'reader maps with prot bits %s' % prot)
             else:
